@@ -170,7 +170,7 @@ class Ledger:
                 out.append(('C05', 'station_balance', {'station': s.id, 'balance_delta': s.balance - b0, 'received': self.received.get(s.id, 0.0)}))
         for et in EnergyType:
             gained = sum(list(v.energy_gained.values())[0] - self.init[v.id][1] for v in sim.vehicles.values() if v.id in self.init and etype_of(v) == et)
-            disp = sum(s.energy_dispensed[et] - self.init_station[s.id][1][et] for s in sim.stations.values() if s.id in self.init_station)
+            disp = sum(s.energy_dispensed.get(et, 0.0) - self.init_station[s.id][1].get(et, 0.0) for s in sim.stations.values() if s.id in self.init_station)
             if not close(gained, disp):
                 out.append(('C05', 'energy_not_conserved', {'energy_type': et.name, 'gained': gained, 'dispensed': disp}))
         # ---- C04 accounting ----
